@@ -10,6 +10,7 @@ import (
 	sdk "github.com/cosmos/cosmos-sdk/types"
 
 	inctypes "github.com/osmosis-labs/osmosis/v31/x/incentives/types"
+	lockuptypes "github.com/osmosis-labs/osmosis/v31/x/lockup/types"
 
 	"github.com/osmosis-labs/osmosis/v31/zzverif/core"
 )
@@ -30,6 +31,56 @@ type epochRef struct {
 	Items []payItem
 	// a reward denom of an active gauge with qualifying locks is worth more per unit than the minimum
 	PreciousInPlay bool
+	// an active NoLock gauge holds a denom of which there is less than one unit per remaining epoch
+	NoLockZeroShareInPlay bool
+	LockPaid, NoLockPaid  bool
+}
+
+// groupRef is what the reference expects of the group pass of one distribution epoch (it precedes activation
+// and distribution of the ordinary gauges): every active group gauge hands its per-epoch amount (remaining /
+// remaining epochs, everything when perpetual) to its member gauges. HOW it is split among the members is
+// not judged (the statement does not speak about it); that nothing is created or lost is.
+type groupRef struct {
+	PerGroup []Amt // indexed like l.Groups
+	Total    Amt
+}
+
+func (w *World) referenceGroups(l *Ledger, now time.Time) *groupRef {
+	gr := &groupRef{PerGroup: make([]Amt, len(l.Groups))}
+	for i, grp := range l.Groups {
+		g := &l.Gauges[grp.G]
+		if g.Status != StActive || now.Before(g.Start) {
+			continue
+		}
+		rem := g.Remaining()
+		remEpochs := int64(1)
+		if !g.Perp {
+			remEpochs = int64(g.N - g.Filled)
+		}
+		var amt Amt
+		for d := range rem {
+			if rem[d] > 0 {
+				amt[d] = rem[d] / remEpochs
+			}
+		}
+		g.Dist = g.Dist.Add(amt)
+		g.Filled++
+		gr.PerGroup[i] = amt
+		gr.Total = gr.Total.Add(amt)
+		if !amt.IsZero() {
+			if g.Perp && g.Paid >= 1 {
+				w.R.Vacuity["group_perpetual_paid_again"]++
+			}
+			if !g.Perp && g.Filled >= 2 {
+				w.R.Vacuity["group_nonperpetual_paid_in_later_epoch"]++
+			}
+		}
+		if !g.Perp && g.Filled == g.N {
+			g.Status, g.Gone = StFinished, true
+			w.R.Vacuity["group_nonperpetual_finished_after_exactly_n_epochs"]++
+		}
+	}
+	return gr
 }
 
 type payItem struct {
@@ -54,9 +105,68 @@ func (w *World) reference(l *Ledger, now time.Time, count bool) *epochRef {
 				vac("upcoming_gauge_with_future_start_activated")
 			}
 		}
+		if g.Kind == KGroup {
+			continue // handled by referenceGroups
+		}
 		if g.Status != StActive {
 			if g.Status == StUpcoming {
 				vac("upcoming_gauge_not_paid_before_start")
+				if g.Kind == KNoLock {
+					vac("nolock_upcoming_gauge_not_paid_before_start")
+				}
+			}
+			continue
+		}
+		if g.Kind == KNoLock {
+			// no lock condition: the recipient is the concentrated pool (its incentive address), which always exists,
+			// so every epoch since activation is a paying epoch
+			if !g.Perp && g.Filled >= g.N {
+				g.Status = StFinished
+				continue
+			}
+			rem := g.Remaining()
+			remEpochs := int64(1)
+			if !g.Perp {
+				remEpochs = int64(g.N - g.Filled)
+			}
+			var amt Amt
+			for i := range rem {
+				if rem[i] > 0 {
+					amt[i] = rem[i] / remEpochs
+					if amt[i] == 0 {
+						// less than one unit per remaining epoch: nothing of this denom this epoch, the epoch still counts
+						ref.NoLockZeroShareInPlay = true
+						vac("nolock_denom_with_zero_per_epoch_share_skipped")
+					} else if g.Dist[i] == 0 && g.Filled > 0 && !g.Perp {
+						vac("nolock_denom_first_paid_in_a_later_epoch_after_zero_shares")
+					}
+				}
+			}
+			if !amt.IsZero() {
+				ref.Pay[ClInc] = ref.Pay[ClInc].Add(amt)
+				ref.NoLockPaid = true
+				if g.Internal {
+					vac("nolock_internal_gauge_paid_pool")
+				} else {
+					vac("nolock_external_gauge_paid_pool")
+				}
+				if g.Perp && g.Paid >= 1 {
+					vac("nolock_perpetual_gauge_paid_again")
+				}
+				if !g.Perp && g.Filled >= 1 {
+					vac("nolock_nonperpetual_gauge_paid_in_later_epoch")
+				}
+				if g.Fut && g.Filled == 0 {
+					vac("nolock_gauge_with_future_start_paid")
+				}
+			}
+			g.Dist = g.Dist.Add(amt)
+			g.Filled++
+			ref.PerGauge[gi] = amt
+			ref.Total = ref.Total.Add(amt)
+			if !g.Perp && g.Filled == g.N {
+				g.Status = StFinished
+				vac("nolock_gauge_finished_after_exactly_n_epochs")
 			}
 			continue
 		}
@@ -71,6 +181,9 @@ func (w *World) reference(l *Ledger, now time.Time, count bool) *epochRef {
 		sizes := map[int64]bool{}
 		owners := map[string]bool{}
 		for li, k := range l.Locks {
+			if g.LockDen != "" {
+				break // the ledger's locks are all lptok
+			}
 			if k.Dur >= g.Dur && k.Amt > 0 {
 				q = append(q, li)
 				total += k.Amt
@@ -80,7 +193,9 @@ func (w *World) reference(l *Ledger, now time.Time, count bool) *epochRef {
 		}
 		if len(q) == 0 {
 			g.Empty++
-			vac("obs_epoch_without_qualifying_lock")
+			if !g.Internal {
+				vac("obs_epoch_without_qualifying_lock")
+			}
 			continue
 		}
 		if len(sizes) >= 2 {
@@ -123,6 +238,7 @@ func (w *World) reference(l *Ledger, now time.Time, count bool) *epochRef {
 				continue
 			}
 			ref.Pay[k.Receiver()] = ref.Pay[k.Receiver()].Add(got)
+			ref.LockPaid = true
 			ref.Items = append(ref.Items, payItem{Owner: k.Owner, Recv: k.Receiver(), A: got})
 			paidG = paidG.Add(got)
 			if k.Recv != "" {
@@ -162,6 +278,7 @@ type gaugeView struct {
 	Rec    inctypes.Gauge
 	Status int // -1: in no index / several
 	Found  bool
+	Group  bool // a group gauge: by design in no lifecycle index; active while its record exists
 }
 
 // views reads the three lifecycle indexes and the by-id records.
@@ -176,6 +293,21 @@ func (w *World) views(ctx sdk.Context) (map[uint64]gaugeView, []string) {
 				continue
 			}
 			out[g.Id] = gaugeView{Rec: g, Status: st, Found: true}
+		}
+	}
+	// Group gauges have no lifecycle index (CreateGauge documents it); they are found through the groups.
+	if gs, err := k.GetAllGroupsWithGauge(ctx); err != nil {
+		problems = append(problems, "groups cannot be listed: "+err.Error())
+	} else {
+		for _, x := range gs {
+			if v, dup := out[x.Gauge.Id]; dup {
+				problems = append(problems, fmt.Sprintf("group gauge %d is in the %s index", x.Gauge.Id, stName[v.Status]))
+				continue
+			}
+			if x.Gauge.Id != x.Group.GroupGaugeId || x.Gauge.DistributeTo.LockQueryType != lockuptypes.ByGroup {
+				problems = append(problems, fmt.Sprintf("group %d is linked to gauge %d of type %s", x.Group.GroupGaugeId, x.Gauge.Id, x.Gauge.DistributeTo.LockQueryType))
+			}
+			out[x.Gauge.Id] = gaugeView{Rec: x.Gauge, Status: StActive, Found: true, Group: true}
 		}
 	}
 	return out, problems
@@ -198,8 +330,14 @@ func (w *World) check(ctx sdk.Context, l *Ledger, fail func(a, s, d string)) {
 		fail("gauge.in-exactly-one-lifecycle-index", "", p)
 	}
 	last := w.App.IncentivesKeeper.GetLastGaugeID(ctx)
-	if uint64(len(vs)) != last {
-		fail("gauge.in-exactly-one-lifecycle-index", "", fmt.Sprintf("%d gauges issued, %d indexed", last, len(vs)))
+	gone := 0
+	for _, g := range l.Gauges {
+		if _, ok := vs[g.ID]; g.Gone && !ok {
+			gone++ // a finished non-perpetual group gauge: its record is deleted
+		}
+	}
+	if uint64(len(vs)+gone) != last {
+		fail("gauge.in-exactly-one-lifecycle-index", "", fmt.Sprintf("%d gauges issued, %d indexed (or group gauges), %d finished group gauges deleted", last, len(vs), gone))
 	}
 	// (1) a gauge never distributes more than was deposited into it
 	ids := make([]uint64, 0, len(vs))
@@ -207,21 +345,24 @@ func (w *World) check(ctx sdk.Context, l *Ledger, fail func(a, s, d string)) {
 		ids = append(ids, id)
 	}
 	sort.Slice(ids, func(i, j int) bool { return ids[i] < ids[j] })
-	owed := sdk.NewCoins()
+	owed := sdk.NewCoins()       // over the upcoming and active indexes (what ModuleToDistributeCoins is documented to be)
+	owedGroups := sdk.NewCoins() // over the group gauges
 	for _, id := range ids {
 		v := vs[id]
 		if !v.Rec.DistributedCoins.IsAllLTE(v.Rec.Coins) && !v.Rec.DistributedCoins.Empty() {
 			fail("gauge.distributed-at-most-deposited", "", fmt.Sprintf("gauge %d: distributed %s > coins %s", id, v.Rec.DistributedCoins, v.Rec.Coins))
 			continue
 		}
-		if v.Status != StFinished {
+		if v.Group {
+			owedGroups = owedGroups.Add(v.Rec.Coins.Sub(v.Rec.DistributedCoins...)...)
+		} else if v.Status != StFinished {
 			owed = owed.Add(v.Rec.Coins.Sub(v.Rec.DistributedCoins...)...)
 		}
 	}
-	// (2) the module holds at least the undistributed remainder of all unfinished gauges
+	// (2) the module holds at least the undistributed remainder of all unfinished gauges, of every kind together
 	have := w.App.BankKeeper.GetAllBalances(ctx, w.IncAddr)
-	if !owed.IsAllLTE(have) && !owed.Empty() {
-		fail("module.holds-undistributed-remainder", "", fmt.Sprintf("incentives module holds %s, unfinished gauges still owe %s", have, owed))
+	if all := owed.Add(owedGroups...); !all.IsAllLTE(have) && !all.Empty() {
+		fail("module.holds-undistributed-remainder", "", fmt.Sprintf("incentives module holds %s, unfinished gauges still owe %s (of which group gauges %s)", have, all, owedGroups))
 	}
 	if q := w.App.IncentivesKeeper.GetModuleToDistributeCoins(ctx); !q.Equal(owed) && !(q.Empty() && owed.Empty()) {
 		fail("query.module-to-distribute-equals-sum", "", fmt.Sprintf("ModuleToDistributeCoins %s, sum over unfinished gauges %s", q, owed))
@@ -229,6 +370,12 @@ func (w *World) check(ctx sdk.Context, l *Ledger, fail func(a, s, d string)) {
 	// (3) the ledger's gauges
 	for _, g := range l.Gauges {
 		v, ok := vs[g.ID]
+		if g.Gone {
+			if ok {
+				fail("gauge.status-agrees-with-ledger", "", fmt.Sprintf("group gauge %d still exists after %d of %d epochs", g.ID, g.Filled, g.N))
+			}
+			continue
+		}
 		if !ok {
 			fail("gauge.record-agrees-with-ledger", "", fmt.Sprintf("gauge %d not found", g.ID))
 			continue
@@ -279,8 +426,8 @@ func (w *World) check(ctx sdk.Context, l *Ledger, fail func(a, s, d string)) {
 func (w *World) block(ctx sdk.Context, l *Ledger, dt time.Duration, fail func(a, s, d string)) (sdk.Context, string) {
 	a := w.App
 	pre := map[string]Amt{}
-	for _, n := range Accounts {
-		pre[n] = w.bal(ctx, core.Acc(n))
+	for _, n := range w.Tracked {
+		pre[n] = w.bal(ctx, w.addr(n))
 	}
 	preMod := w.bal(ctx, w.IncAddr)
 	e0 := w.epochNo(ctx)
@@ -316,13 +463,13 @@ func (w *World) block(ctx sdk.Context, l *Ledger, dt time.Duration, fail func(a,
 	l.Locks = kept
 
 	post := map[string]Amt{}
-	for _, n := range Accounts {
-		post[n] = w.bal(ctx, core.Acc(n))
+	for _, n := range w.Tracked {
+		post[n] = w.bal(ctx, w.addr(n))
 	}
 	postMod := w.bal(ctx, w.IncAddr)
 
 	if fired == 0 {
-		for _, n := range Accounts {
+		for _, n := range w.Tracked {
 			if post[n] != pre[n] {
 				fail("schedule.no-payment-outside-epoch-end", "", fmt.Sprintf("%s: %s -> %s in a block without epoch end", n, pre[n], post[n]))
 			}
@@ -335,7 +482,6 @@ func (w *World) block(ctx sdk.Context, l *Ledger, dt time.Duration, fail func(a,
 
 	l.Epochs++
 	before := l.Clone()
-	ref := w.reference(l, ctx.BlockTime(), true)
 	vs, _ := w.views(ctx)
 
 	type bad struct{ assertion, text string }
@@ -346,9 +492,75 @@ func (w *World) block(ctx sdk.Context, l *Ledger, dt time.Duration, fail func(a,
 		classes[class] = true
 	}
 
+	// Group pass (precedes activation and distribution in the module's hook): what the active group gauges hand
+	// out must re-appear, exactly, as growth of their member gauges' coins; no other gauge's coins may change.
+	// The split itself is adopted from the observation.
+	gref := w.referenceGroups(l, ctx.BlockTime())
+	if len(l.Groups) > 0 || w.Cfg.CL {
+		var credited Amt
+		nCredited := 0
+		inLedger := map[uint64]bool{}
+		for gi := range l.Gauges {
+			g := &l.Gauges[gi]
+			inLedger[g.ID] = true
+			v, ok := vs[g.ID]
+			if !ok {
+				continue
+			}
+			ca, _ := amtOf(v.Rec.Coins)
+			d := ca.Sub(before.Gauges[gi].Coins)
+			if d.IsZero() {
+				continue
+			}
+			member := false
+			for i, grp := range l.Groups {
+				for _, m := range grp.Members {
+					if m == gi && !gref.PerGroup[i].IsZero() {
+						member = true
+					}
+				}
+			}
+			if !member || d[0] < 0 || d[1] < 0 || d[2] < 0 {
+				addBad("group.only-member-gauges-are-credited", "gauge-coins-changed", fmt.Sprintf("gauge %d: coins %s -> %s in the epoch block", g.ID, before.Gauges[gi].Coins, ca))
+			}
+			credited = credited.Add(d)
+			nCredited++
+			g.Coins = ca
+			if g.Kind == KNoLock && g.Internal && before.Gauges[gi].Status == StActive {
+				w.R.Vacuity["group_credit_forwarded_to_the_pool_in_the_same_epoch"]++
+			}
+		}
+		ids := make([]uint64, 0, len(vs))
+		for id := range vs {
+			ids = append(ids, id)
+		}
+		sort.Slice(ids, func(i, j int) bool { return ids[i] < ids[j] })
+		for _, id := range ids {
+			if pv, ok := preViews[id]; ok && !inLedger[id] && !vs[id].Rec.Coins.Equal(pv.Rec.Coins) {
+				addBad("group.only-member-gauges-are-credited", "gauge-coins-changed", fmt.Sprintf("gauge %d: coins %s -> %s in the epoch block", id, pv.Rec.Coins, vs[id].Rec.Coins))
+			}
+		}
+		if credited != gref.Total {
+			addBad("group.members-credited-exactly-what-the-group-distributes", "group-conservation", fmt.Sprintf("group gauges hand out %s (remaining / remaining epochs), member gauges' coins grew by %s", gref.Total, credited))
+		}
+		if nCredited >= 2 {
+			w.R.Vacuity["group_split_credited_two_members"]++
+		}
+		if credited == gref.Total {
+			w.observeSplit(ctx, l, before, gref)
+		}
+	}
+	ref := w.reference(l, ctx.BlockTime(), true)
+	for i, grp := range l.Groups {
+		ref.PerGauge[grp.G] = gref.PerGroup[i]
+	}
+	if ref.LockPaid && ref.NoLockPaid {
+		w.R.Vacuity["lock_and_nolock_gauges_paid_in_the_same_epoch"]++
+	}
+
 	// recipients
 	recipientsOK := true
-	for _, n := range Accounts {
+	for _, n := range w.Tracked {
 		got := post[n].Sub(pre[n])
 		if got != ref.Pay[n] {
 			recipientsOK = false
@@ -362,6 +574,23 @@ func (w *World) block(ctx sdk.Context, l *Ledger, dt time.Duration, fail func(a,
 		g := &l.Gauges[gi]
 		b := before.Gauges[gi]
 		v, ok := vs[g.ID]
+		if b.Gone {
+			continue
+		}
+		if g.Kind == KGroup && (g.Gone || !ok) {
+			// a non-perpetual group gauge is deleted when it finishes; what it handed out in its last epoch is judged by
+			// the conservation check above
+			unchanged = false
+			switch {
+			case g.Gone && ok:
+				addBad("lifecycle.finished-after-exactly-n-paying-epochs", "not-finished", fmt.Sprintf("group gauge %d still exists after %d of %d epochs", g.ID, g.Filled, g.N))
+			case !g.Gone && !ok:
+				addBad("lifecycle.finished-after-exactly-n-paying-epochs", "finished-early", fmt.Sprintf("group gauge %d was deleted after %d of %d epochs", g.ID, g.Filled, g.N))
+			default:
+				g.Paid++
+			}
+			continue
+		}
 		if !ok {
 			addBad("gauge.record-agrees-with-ledger", "gauge-missing", fmt.Sprintf("gauge %d not found after the epoch", g.ID))
 			continue
@@ -394,7 +623,10 @@ func (w *World) block(ctx sdk.Context, l *Ledger, dt time.Duration, fail func(a,
 			if actPaid.IsZero() && nz == 1 && small {
 				class = "single-denom-remainder<=100-not-paid"
 			}
-			addBad("epoch.gauge-distributes-reference-amount", class, fmt.Sprintf("gauge %d (remaining %s, filled %d/%d perpetual=%v) distributed %s, reference %s", g.ID, rem, b.Filled, b.N, b.Perp, actPaid, ref.PerGauge[gi]))
+			if g.Kind != KLock {
+				class = kindName[g.Kind] + "-gauge-amount"
+			}
+			addBad("epoch.gauge-distributes-reference-amount", class, fmt.Sprintf("%s gauge %d (remaining %s, filled %d/%d perpetual=%v) distributed %s, reference %s", kindName[g.Kind], g.ID, rem, b.Filled, b.N, b.Perp, actPaid, ref.PerGauge[gi]))
 		}
 		// lifecycle
 		switch {
@@ -424,7 +656,7 @@ func (w *World) block(ctx sdk.Context, l *Ledger, dt time.Duration, fail func(a,
 	}
 	if !recipientsOK || !modOK {
 		var sb strings.Builder
-		for _, n := range Accounts {
+		for _, n := range w.Tracked {
 			fmt.Fprintf(&sb, "%s got %s want %s; ", n, post[n].Sub(pre[n]), ref.Pay[n])
 		}
 		fmt.Fprintf(&sb, "module paid out %s want %s", preMod.Sub(postMod), ref.Total)
@@ -447,7 +679,7 @@ func (w *World) block(ctx sdk.Context, l *Ledger, dt time.Duration, fail func(a,
 	}
 	// Divergence. Stable signature: the set of symptom classes when all of them are specific ones, else the trace.
 	movedNothing := unchanged && postMod == preMod
-	for _, n := range Accounts {
+	for _, n := range w.Tracked {
 		if post[n] != pre[n] {
 			movedNothing = false
 		}
@@ -457,6 +689,9 @@ func (w *World) block(ctx sdk.Context, l *Ledger, dt time.Duration, fail func(a,
 		sig = "epoch-hook-had-no-effect"
 		if ref.PreciousInPlay {
 			sig += "(a reward denom in play is worth more per unit than MinValueForDistribution)"
+		}
+		if ref.NoLockZeroShareInPlay {
+			sig += "(an active NoLock gauge holds less than one unit per remaining epoch of one of its denoms)"
 		}
 		sig += "@" + w.Cfg.Name
 	} else {
@@ -576,8 +811,12 @@ func (w *World) resync(ctx sdk.Context, l *Ledger, vs map[uint64]gaugeView) {
 		g := &l.Gauges[gi]
 		v, ok := vs[g.ID]
 		if !ok {
+			if g.Kind == KGroup {
+				g.Status, g.Gone = StFinished, true
+			}
 			continue
 		}
+		g.Gone = false
 		if da, ok := amtOf(v.Rec.DistributedCoins); ok {
 			g.Dist = da
 		}
@@ -612,4 +851,71 @@ func (w *World) shorter(assertion, sig string, steps int) bool {
 	}
 	w.best[key] = steps
 	return true
+}
+
+// observeSplit records (does not judge) whether the observed split of a group's per-epoch amount follows the
+// members' pool volume since the last weight sync, as the module documents it (weights are refreshed only when
+// every member pool had volume since the previous refresh; otherwise the previous weights stay in force).
+// The tracked pool volume is read from x/poolmanager: it is the premise of the split, not C09's subject.
+func (w *World) observeSplit(ctx sdk.Context, l *Ledger, before *Ledger, gref *groupRef) {
+	paying := -1
+	for i := range l.Groups {
+		if l.Gauges[l.Groups[i].G].Status != StActive && !l.Gauges[l.Groups[i].G].Gone {
+			continue
+		}
+		grp := &l.Groups[i]
+		if before.Gauges[grp.G].Status == StActive {
+			allMoved := true
+			cur := make([]int64, len(grp.Pools))
+			for j, pid := range grp.Pools {
+				cur[j] = w.App.PoolManagerKeeper.GetOsmoVolumeForPool(ctx, pid).Int64()
+				if cur[j] <= grp.Snap[j] {
+					allMoved = false
+				}
+			}
+			if allMoved {
+				for j := range cur {
+					grp.W[j], grp.Snap[j] = cur[j]-grp.Snap[j], cur[j]
+				}
+				w.R.Vacuity["obs_group_weights_refreshed_from_new_volume"]++
+			} else {
+				w.R.Vacuity["obs_group_weights_kept_because_a_member_pool_had_no_new_volume"]++
+			}
+		}
+		if !gref.PerGroup[i].IsZero() {
+			if paying >= 0 {
+				return // two groups paying into the same members: the per-group split is not observable
+			}
+			paying = i
+		}
+	}
+	if paying < 0 {
+		return
+	}
+	grp := l.Groups[paying]
+	var sumW int64
+	for _, x := range grp.W {
+		sumW += x
+	}
+	if sumW == 0 {
+		return
+	}
+	ok := true
+	for j, m := range grp.Members {
+		d := l.Gauges[m].Coins.Sub(before.Gauges[m].Coins)
+		for i := range d {
+			ideal := floorMulDiv(gref.PerGroup[paying][i], grp.W[j], sumW, 1)
+			if d[i] < ideal-1 || d[i] > ideal+int64(len(grp.Members)) {
+				ok = false
+			}
+		}
+	}
+	if len(grp.W) == 2 && grp.W[0] != grp.W[1] {
+		w.R.Vacuity["obs_group_split_with_unequal_weights"]++
+	}
+	if ok {
+		w.R.Vacuity["obs_group_split_follows_volume_share"]++
+	} else {
+		w.R.Vacuity["obs_group_split_deviates_from_volume_share"]++
+	}
 }
